@@ -141,14 +141,17 @@ def must_call(ctx, repo, itf):
             callee = itf.functions[n.func.id]
             break
     if callee is not None:
-        # DataFrame branch: the branch whose test mentions DataFrame must call the duplicate-column check
-        dfb = [n for n in walk_own(callee) if isinstance(n, ast.If) and "DataFrame" in ast.unparse(n.test)]
-        ok = bool(dfb) and m.block(dfb[0].body, "_fail_if_duplicates_in_columns") is True
+        from staticlib.guards import scope_functions
+
+        scope = scope_functions(itf, callee)
+        # DataFrame branch (in the step or a helper of it): must call the duplicate-column check
+        dfb = [n for f_ in scope for n in walk_own(f_) if isinstance(n, ast.If) and "DataFrame" in ast.unparse(n.test) and "isinstance" in ast.unparse(n.test)]
+        ok = bool(dfb) and all(m.block(b.body, "_fail_if_duplicates_in_columns") is True for b in dfb)
         ctx.ob("F1", ok=ok, distinct="duplicates")
         if not ok:
             ctx.violation("F1", "dataframe-duplicates", itf.loc(dfb[0] if dfb else callee), "the DataFrame branch of the data-processing step does not call _fail_if_duplicates_in_columns: duplicate column names are silently collapsed by dict(data)")
         # unsupported containers are rejected
-        ok = any(isinstance(n, ast.Raise) for n in walk_own(callee))
+        ok = any(isinstance(n, ast.Raise) for f_ in scope if not f_.name.startswith("_fail_if") for n in walk_own(f_))
         ctx.ob("F1", ok=ok, distinct="unsupported-container")
         if not ok:
             ctx.violation("F1", "unsupported-container", itf.loc(callee), "the data-processing step no longer rejects unsupported containers")
